@@ -45,6 +45,7 @@ import (
 	"strings"
 
 	"golang.org/x/perf/benchstat"
+	"golang.org/x/perf/internal/stats"
 	"golang.org/x/perf/storage/benchfmt"
 )
 
@@ -148,15 +149,15 @@ func lgBad(format string, a ...interface{}) {
 
 // ---------------------------------------------------------------- concretisation
 
-// name schemes: three strings in increasing order of Go's string comparison
-var lgNameSchemes = [][3]string{
-	{"A", "B", "C"},
-	{"Decode", "Encode", "Fib"},
-	{"Fib/n=10", "Fib/n=20", "Fib/n=9"},
-	{"Zip", "alloc", "map"},
-	{"X-8", "Y-8", "Z-8"},
-	{"Sort/1K-4", "Sort/1M-4", "Sort/2K-4"},
-	{"Get", "GetParallel", "Put"},
+// name schemes: five strings in increasing order of Go's string comparison
+var lgNameSchemes = [][5]string{
+	{"A", "B", "C", "D", "E"},
+	{"Decode", "Encode", "Fib", "Gob", "Gzip"},
+	{"Fib/n=10", "Fib/n=20", "Fib/n=9", "Fib/n=90", "Fib/n=91"},
+	{"Zip", "alloc", "map", "mapiter", "select"},
+	{"V-8", "W-8", "X-8", "Y-8", "Z-8"},
+	{"Sort/1K-4", "Sort/1M-4", "Sort/2K-4", "Sort/2M-4", "Sort/4K-4"},
+	{"Get", "GetParallel", "Put", "PutParallel", "Scan"},
 }
 
 var lgCustomUnits = []string{"allocs/op", "B/op", "widgets", "ns/GC", "req/s", "bytes/op", "pkg-ns/op"}
@@ -171,14 +172,16 @@ var lgScales = []float64{1, 1, 1000, 0.5, 0.001, 1e6, 4}
 
 func init() {
 	for _, s := range lgNameSchemes {
-		if !(s[0] < s[1] && s[1] < s[2]) {
-			panic("legacy harness: name scheme not increasing")
+		for i := 1; i < len(s); i++ {
+			if !(s[i-1] < s[i]) {
+				panic("legacy harness: name scheme not increasing")
+			}
 		}
 	}
 }
 
 type lgConc struct {
-	names   [3]string
+	names   [5]string
 	units   [4]string // index 1..3
 	key     string
 	labvals [2]string
@@ -425,7 +428,7 @@ func lgReplay(raw json.RawMessage) Verdict {
 type lgDumpRow struct {
 	Name, Group, Delta, Note string
 	Change                   int
-	Pct                      float64
+	Pct                      string // as text: may be Inf or NaN, which JSON cannot carry
 	Metrics                  []string
 }
 
@@ -434,7 +437,7 @@ func lgDump(tables []*benchstat.Table) interface{} {
 	for _, t := range tables {
 		var rows []lgDumpRow
 		for _, r := range t.Rows {
-			d := lgDumpRow{Name: r.Benchmark, Group: r.Group, Delta: r.Delta, Note: r.Note, Change: r.Change, Pct: r.PctDelta}
+			d := lgDumpRow{Name: r.Benchmark, Group: r.Group, Delta: r.Delta, Note: r.Note, Change: r.Change, Pct: fmt.Sprint(r.PctDelta)}
 			for _, m := range r.Metrics {
 				d.Metrics = append(d.Metrics, fmt.Sprintf("%s vals=%v r=%v min=%v mean=%v max=%v", m.Unit, m.Values, m.RValues, m.Min, m.Mean, m.Max))
 			}
@@ -702,14 +705,19 @@ func lgCompareCmp(c *lgCase, k *lgConc, unit string, er *lgRow, or *benchstat.Ro
 	pIsExact := false
 	switch c.Set.Test {
 	case "u":
-		lp, lerr := benchstat.UTest(&benchstat.Metrics{RValues: append([]float64(nil), oldR...)}, &benchstat.Metrics{RValues: append([]float64(nil), newR...)})
-		if (cmp.Err == "eq") != (lerr == benchstat.ErrSamplesEqual) || (cmp.Err == "" && lerr != nil) {
-			return false, lgF("utest-error-class", "%s: model says error %q, benchstat.UTest(%v, %v) = (%v, %v)", where, cmp.Err, oldR, newR, lp, lerr), ""
+		// internal/stats directly: package benchstat's wrappers are under test (which samples, which test)
+		var lp float64
+		res, lerr := stats.MannWhitneyUTest(append([]float64(nil), oldR...), append([]float64(nil), newR...), stats.LocationDiffers)
+		if res != nil {
+			lp = res.P
+		}
+		if (cmp.Err == "eq") != (lerr == stats.ErrSamplesEqual) || (cmp.Err == "" && lerr != nil) {
+			return false, lgF("utest-error-class", "%s: model says error %q, stats.MannWhitneyUTest(%v, %v) = (%v, %v)", where, cmp.Err, oldR, newR, lp, lerr), ""
 		}
 		if cmp.Err == "" {
 			if cmp.Pex {
 				if !lgRatEq(lp, cmp.Pn, cmp.Pd, 1, 1e-12) {
-					return false, lgF("utest-exact-p", "%s: benchstat.UTest(%v, %v) = %v, exact two-sided p is %d/%d", where, oldR, newR, lp, cmp.Pn, cmp.Pd), ""
+					return false, lgF("utest-exact-p", "%s: stats.MannWhitneyUTest(%v, %v) = %v, exact two-sided p is %d/%d", where, oldR, newR, lp, cmp.Pn, cmp.Pd), ""
 				}
 				p, pIsExact = float64(cmp.Pn)/float64(cmp.Pd), true
 			} else {
@@ -717,10 +725,14 @@ func lgCompareCmp(c *lgCase, k *lgConc, unit string, er *lgRow, or *benchstat.Ro
 			}
 		}
 	case "t":
-		lp, lerr := benchstat.TTest(&benchstat.Metrics{RValues: append([]float64(nil), oldR...)}, &benchstat.Metrics{RValues: append([]float64(nil), newR...)})
-		want := map[string]error{"": nil, "few": benchstat.ErrSampleSize, "zv": benchstat.ErrZeroVariance}[cmp.Err]
+		var lp float64
+		res, lerr := stats.TwoSampleWelchTTest(stats.Sample{Xs: append([]float64(nil), oldR...)}, stats.Sample{Xs: append([]float64(nil), newR...)}, stats.LocationDiffers)
+		if res != nil {
+			lp = res.P
+		}
+		want := map[string]error{"": nil, "few": stats.ErrSampleSize, "zv": stats.ErrZeroVariance}[cmp.Err]
 		if lerr != want {
-			return false, lgF("ttest-error-class", "%s: model says error %q, benchstat.TTest(%v, %v) = (%v, %v)", where, cmp.Err, oldR, newR, lp, lerr), ""
+			return false, lgF("ttest-error-class", "%s: model says error %q, stats.TwoSampleWelchTTest(%v, %v) = (%v, %v)", where, cmp.Err, oldR, newR, lp, lerr), ""
 		}
 		if cmp.Err == "" {
 			p = lp // auxiliary (C12)
@@ -831,7 +843,13 @@ func lgCompareGeo(c *lgCase, k *lgConc, unit string, et *lgTable, geo *benchstat
 		m := geo.Metrics[ci]
 		if len(et.Geo[ci]) == 0 {
 			if m.Unit != "" || (m.Mean != 0 && !math.IsNaN(m.Mean)) {
-				return lgF("geomean-value", "table %s config %d: geomean %v of no non-zero mean", unit, ci+1, m.Mean)
+				sig := "geomean-value"
+				for i := range et.Rows {
+					if cell := &et.Rows[i].Cells[ci]; cell.Has && cell.Sum == 0 {
+						sig = "geomean-includes-zero-means"
+					}
+				}
+				return lgF(sig, "table %s config %d: geomean cell (unit %q, %v) although the configuration has no non-zero mean", unit, ci+1, m.Unit, m.Mean)
 			}
 			continue
 		}
